@@ -3,6 +3,7 @@ import Model.Base.Proto
 import Model.Fmt.Reader
 import Model.Fmt.Writer
 import Model.Spec.RoundTrip
+import Model.Spec.FmtFloat
 
 /-
 C01 driver.
@@ -16,6 +17,8 @@ case <id> kind=api|text|filter wf=0|1 cr=0|1 h=<history> fmt=<tbl> wbytes=<hex> 
   wbytes : what the IMPLEMENTATION wrote for h
   nums/tidy/uni : the C02 reader oracles for the fields of wbytes (and the strings of h)
 
+obs  <id> fmt=<tbl>       bits:text of Spec.FmtFloat.fmtNumSpec — the SPEC of %v — for every value of fmt=
+                          (Go: the fmt= table itself, i.e. what `fmt` printed)
 obs  <id> bytes=<hex>     model writer's bytes                      (Go: implementation's bytes)
 obs  <id> ir=<stream>     observe(MODEL read(IMPLEMENTATION bytes)) (Go: observe(h) by the harness)
 obs  <id> mr=<stream>     observeWritten h                          (Go: observe(IMPL read(MODEL bytes)),
@@ -177,6 +180,12 @@ def handleCase (l : Line) : IO Unit := do
   | none =>
     IO.println s!"obs {l.id} bytes=BAD-HISTORY"
   | some h =>
+    -- the specification of %v against what Go printed
+    let specTbl := (entries (l.getD "fmt" "-")).filterMap fun e =>
+      match e with
+      | [b, _] => (hexNat b).map fun bv => s!"{b}:{(Spec.FmtFloat.fmtNumSpec (UInt64.ofNat bv)).toHex}"
+      | _ => none
+    IO.println s!"obs {l.id} fmt={joinOr "," specTbl}"
     let mbytes := render (Writer.writeAll P h)
     IO.println s!"obs {l.id} bytes={mbytes.toHex}"
     let roundTrips := l.getD "wf" "1" == "1" && l.getD "cr" "0" == "0"
